@@ -121,6 +121,22 @@ def gen_cases(seed, tier, insts):
                 else: c = Case(inst, ext, stream='boundary')
                 c.ops = [('span', None), ('strides', None), ('stridesarr', None), ('flags', None)] + [('off', C.fmt(i)) for i in idxs]
                 cases.append(c)
+    # ---- padded boundary: extent-to-pad and padding near the top of the type, other extents 0/1/2
+    for t in C.ITYPES:
+        H = C.hi(t)
+        for _ in range(24 if not thorough else 200):
+            r = rnd.randint(2, 3)
+            e = rnd.choice([H // 2 + 1, H // 2, H // 3 + 1, H - 1, H, H // 2 + 2, H // 4 + 1])
+            pv = max(1, rnd.choice([e, e - 1, (e + 1) // 2, H // 2 + 1, 2, 1, e // 3 + 1, H]))
+            others = [rnd.choice([1, 1, 1, 2, 0]) for _ in range(r - 1)]
+            for kind in ('lpad', 'rpad'):
+                inst = dyn.get((kind, t, r))
+                if inst is None: continue
+                ext = [e] + others if kind == 'lpad' else others + [e]
+                c = Case(inst, ext, pv=pv, stream='boundary-padded')
+                idxs = [[x - 1 for x in ext], [0] * r] + [[1 if (k == j and ext[k] > 1) else 0 for k in range(r)] for j in range(r)] if all(x > 0 for x in ext) else []
+                c.ops = [('span', None), ('strides', None), ('stridesarr', None), ('flags', None)] + [('off', C.fmt(i)) for i in idxs]
+                cases.append(c)
     # ---- random structured, higher rank
     nr = 150 if not thorough else 2500
     keys = sorted(dyn)
